@@ -1021,58 +1021,74 @@ def absolute (ts : Toks) : Bool :=
   | [.punct '\'', .ident _] => true
   | _ => false
 
+/-- a bound on the macro's own type parameter is an absolute path (or a lifetime) -/
+def macroHeadAbsolute (ps : List GParam) : Bool :=
+  match ps.head? with
+  | some (.ty _ "EntraitT" bs _ _) => bs.all absolute
+  | _ => false
+
+/-- trait mode: the names the user chose, which the macro may use bare -/
+def userTraitNames (attr : Toks) (t : TraitItem) : List String :=
+  t.ident ::
+  (match parseTraitAttr attr with
+   | .ok a =>
+       (match a.implTrait with | some it => [it.2] | none => []) ++
+       (match a.delegation with | some (.byTrait d) => [d] | _ => [])
+   | .error _ => [])
+
+/-- what the macro requires of `T` in trait mode: absolute paths, or the user's own trait names -/
+def traitBoundOk (names : List String) (b : Toks) : Bool :=
+  absolute b || (match b with | .ident s :: _ => names.contains s | _ => false)
+
+def traitPredOk (attr : Toks) (item : Item) (q : Option WherePred) : Bool :=
+  match item, q with
+  | .trait t, some (.ty _ _ bs _) => bs.all (traitBoundOk (userTraitNames attr t))
+  | .trait _, _ => false
+  | _, _ => true
+
+/-- every delegation shape of the given attribute (they name everything through `::core::..` /
+    `::entrait::..` paths, the user's trait names and the method's own parameters) -/
+def allShapes (a : TraitAttr) : List DelegShape :=
+  let it := (a.implTrait.map (·.2)).getD ""
+  [.bySelf, .byRef false, .byRef true, .staticTarget it,
+   .dynTarget it false false, .dynTarget it false true, .dynTarget it true false, .dynTarget it true true]
+
+/-- a delegating body is one of the recognised shapes -/
+def bodyShapeOk (attr : Toks) (item : Item) (m : GenMember) : Bool :=
+  match m with
+  | .fn _ sig (some b) =>
+      (match item with
+       | .trait _ =>
+           (match parseTraitAttr attr with
+            | .ok a => (allShapes a).any (fun sh =>
+                b == specDelegBody sh sig.ident (paramIdents sig.inputs) true ||
+                b == specDelegBody sh sig.ident (paramIdents sig.inputs) false)
+            | .error _ => false)
+       | _ => (parseCall b).isSome)
+  | _ => true
+
+def implAbsoluteOk (attr : Toks) (item : Item) (im : GenImpl) : Bool :=
+  im.members.all (bodyShapeOk attr item) &&
+  traitPredOk attr item im.preds.head? &&
+  (concreteFn item ||
+    (macroHeadAbsolute im.params &&
+      (im.selfTy == [i entraitT] || im.selfTy == implPathToks ||
+        (match item with | .impl m => im.selfTy == m.selfTy | _ => false))))
+
+/-- a return type in a generated trait is the user's, or the absolute `impl ::core::future::Future<..>` form -/
+def outputOk (src : Sig) (m : GenMember) : Bool :=
+  match m.sig? with
+  | some g => g.output == src.output || g.output == some (futureWrapper src.output true) ||
+              g.output == some (futureWrapper src.output false)
+  | none => false
+
+def traitAbsoluteOk (item : Item) (t : GenTrait) : Bool :=
+  t.members.all (fun m => m.sig?.isNone) ||
+  zipAll outputOk item.srcSigs (t.members.filter (fun m => m.sig?.isSome))
+
 def P_C19 (attr : Toks) (item : Item) (view : View) : Bool :=
-  let userTrait : Option String := match item with | .trait t => some t.ident | _ => none
-  let implTraitIdent : Option String :=
-    match item with
-    | .trait _ => (match parseTraitAttr attr with | .ok a => a.implTrait.map (·.2) | .error _ => none)
-    | _ => none
-  let delegIdent : Option String :=
-    match item with
-    | .trait _ => (match parseTraitAttr attr with
-                   | .ok a => (match a.delegation with | some (.byTrait d) => some d | _ => none)
-                   | .error _ => none)
-    | _ => none
-  let srcSigs : List Sig :=
-    match item with
-    | .trait t => t.fns.map (·.sig)
-    | _ => item.sourceFns.map (·.sig)
-  (implsOf view.items).all (fun im =>
-    -- bounds on the macro's own type parameter
-    (match im.params.head? with
-     | some (.ty _ "EntraitT" bs _ _) => bs.all absolute
-     | _ => true) &&
-    -- the self type, when the macro chooses it
-    (im.selfTy == [i entraitT] || im.selfTy == implPathToks ||
-      (match item with | .impl m => im.selfTy == m.selfTy | .fn f => f.sig.depIsConcrete | _ => false)) &&
-    -- what the macro adds to `T` in trait mode: absolute, or the user's own trait names
-    (match item, im.preds.head? with
-     | .trait _, some (.ty _ _ bs _) =>
-         bs.all (fun b => absolute b ||
-           (match b with
-            | .ident s :: _ => some s == userTrait || some s == implTraitIdent || some s == delegIdent
-            | _ => false))
-     | _, _ => true) &&
-    -- delegating bodies are of the recognised shapes, which name everything absolutely
-    im.members.all (fun m => match m with
-      | .fn _ sig (some b) =>
-          if item.mode == .trait then
-            (match parseTraitAttr attr with
-             | .ok a => [DelegShape.bySelf, .byRef false, .byRef true,
-                         .staticTarget ((a.implTrait.map (·.2)).getD ""), .dynTarget ((a.implTrait.map (·.2)).getD "") false false,
-                         .dynTarget ((a.implTrait.map (·.2)).getD "") false true, .dynTarget ((a.implTrait.map (·.2)).getD "") true false,
-                         .dynTarget ((a.implTrait.map (·.2)).getD "") true true].any
-                        (fun sh => [true, false].any (fun aw => b == specDelegBody sh sig.ident (paramIdents sig.inputs) aw))
-             | .error _ => false)
-          else (parseCall b).isSome
-      | _ => true)) &&
-  (traitsOf view.items).all (fun t =>
-    -- a return type the macro rewrote is the absolute `impl ::core::future::Future<..>` form
-    (t.members.all (fun m => m.sig?.isNone)) ||
-    zipAll (fun (src : Sig) m => match m.sig? with
-      | some g => g.output == src.output || g.output == some (futureWrapper src.output true) ||
-                  g.output == some (futureWrapper src.output false)
-      | none => false) srcSigs (t.members.filter (fun m => m.sig?.isSome)))
+  (implsOf view.items).all (implAbsoluteOk attr item) &&
+  (traitsOf view.items).all (traitAbsoluteOk item)
 
 /-! ## C15 — misuse yields its diagnostic; never a panic; the output always parses -/
 
